@@ -946,6 +946,15 @@ func (c *Ctx) scanMapOrder(d MapOrderDirective) ([]*Obligation, string) {
 								}
 							}
 						}
+						// HashSet records insertion order: feeding it from a map walk is an append in disguise
+						if cal := call.Call.StaticCallee(); cal != nil && cal.Name() == "HashSet" {
+							for _, a := range call.Call.Args {
+								if derived[a] {
+									acc = append(acc, "HashSet at "+c.posStr(call.Pos()))
+									break
+								}
+							}
+						}
 					}
 				}
 				ob2 := &Obligation{Name: fmt.Sprintf("%s#order.accumulate#%d", name, k-1), Kind: "order.accumulate", Fn: name, Backend: "ssa-scan", Status: "ok", Pos: c.posStr(nx.Pos())}
